@@ -56,6 +56,8 @@ class Ctx:
         if len(self.samples) < 4: self.samples.append(s if len(s) < 1500 else s[:1500] + "…")
     def distinct_key(self, *k): self.distinct.add(k)
     def fail(self, clause, where, detail, lines, kind="oracle"):
+        if clause.startswith("_"):            # oracle statistics, not failures
+            self.count("oracle" + clause); return
         self.failures.append(Failure(clause, where, detail, list(lines), kind))
     def record_pair(self, res, lines, lane, scope=None):
         """bookkeeping common to every script run: counts, crash and disagreement collection.
